@@ -22,6 +22,41 @@ def image_of(blocks, shift=0):
     return img
 
 
+def label_classes(stmts):
+    """label name -> 'outside' (every definition stands outside loop bodies), 'loop' (inside one), 'mixed' (a macro body
+    applied both inside and outside loops); derived from the program text structure only"""
+    macros = {st[1]: st[3] for st in stmts if st[0] == "macro"}
+    out = {}
+
+    def mark(name, where):
+        out[name] = where if out.get(name, where) == where else "mixed"
+
+    def walk(body, in_loop, depth=0):
+        if depth > 6:
+            return
+        for st in body:
+            k = st[0]
+            if k == "label":
+                mark(st[1], "loop" if in_loop else "outside")
+            elif k == "block":
+                walk(st[1], in_loop, depth)
+            elif k == "scope":
+                walk(st[2], in_loop, depth)
+            elif k == "if":
+                walk(st[2], in_loop, depth)
+                if st[3] is not None:
+                    walk(st[3], in_loop, depth)
+            elif k == "for":
+                walk(st[4], True, depth)
+            elif k == "apply":
+                walk(macros.get(st[1], []), in_loop, depth + 1)
+                for a in st[2]:
+                    if isinstance(a, tuple):
+                        walk(a[1], in_loop, depth + 1)
+    walk([st for st in stmts if st[0] != "macro"], False)
+    return out
+
+
 def sfc_image_of(data):
     return {k: b for k, b in enumerate(data)}
 
@@ -44,6 +79,12 @@ def run(ctx):
                 src = pr["src"]
                 if ndef:
                     src += "*=0x%06x\n" % ({"low_rom": 0x1F8000, "low_rom_2": 0x9F8000, "high_rom": 0xCF0000}[rom]) + "".join(f".dw {k}\nlda.w #{k} + 1\n" for k, _ in defines)
+                    # the definitions are constants of the whole program: visible to .if / .for / := (evaluated while the
+                    # program is expanded) and shadowed by scope-local names like any top-level constant
+                    k0 = defines[0][0]
+                    src += (f".if {k0} & 1 {{\n.db 0x11\n}} else {{\n.db 0x22\n}}\n.if {k0} - {defines[0][1]} {{\n.db 0x33\n}} else {{\n.db 0x44\n}}\n"
+                            f"zz_c := {k0} + 1\n.dw zz_c\n.for zz_i := 0, ({k0} & 3) + 1 {{\n.db zz_i\n}}\n"
+                            f"{{\n{k0} = 7\n.db {k0}\n}}\n.macro zz_m({k0}) {{\n.dw {k0}\n}}\nzz_m(0x1234)\n.for {k0} := 0, 2 {{\n.db {k0}\n}}\n.dw {k0}\n")
                 if ndef == 0 and rep_i == 0 and fmt == "ips":
                     # one contiguous block longer than two IPS records (a large included binary)
                     big = bytes(range(256)) * 0x200 + bytes(range(rng.randrange(1, 40)))
@@ -160,6 +201,19 @@ def run(ctx):
             m_ = drv.ask(["symfile " + (";".join(f"{k.encode().hex()}={v}" for k, v in labels) or "-")])[0]
             if m_ != (text.encode().hex() or "-"):
                 s2.disagree({"src": pr["src"][:300]}, m_[:100], text[:100])
+            # independent of the resolver's scope classes: which labels stand (lexically) outside every loop body
+            cls_ = label_classes(pr.get("stmts") or [])
+            import collections as _c
+            emitted = _c.Counter(n["name"] for n in tr["nodes"] if n["cls"] == "LabelNode")
+            listed = _c.Counter(l.split(" ")[-1] for l in text.split("\n")[1:] if l)
+            for name, where in cls_.items():
+                # (labels of blocks nested in a loop body live in ordinary scopes and are listed by the code; the
+                # property only fixes the definitions made outside loop iterations)
+                want = {"outside": emitted[name]}.get(where)
+                if want is not None and listed[name] != want:
+                    s2.violate({"src": pr["src"][:800], "label": name}, f"{want} line(s) for {name} ({where} loop bodies, emitted {emitted[name]} time(s))", f"{listed[name]} line(s)",
+                               "the symbol file does not list each label definition made outside loop iterations once (or lists one made inside)")
+                    break
             lines = sorted(l for l in text.split("\n")[1:] if l)
             exp = sorted(f"{(n['run'] >> 16) & 0xFF:2x}:{n['run'] & 0xFFFF:4x} {n['name']}" for n in tr["nodes"]
                          if n["cls"] in ("LabelNode", "BinaryNode") and n.get("scope_cls") != "InternalScope")
